@@ -345,39 +345,47 @@ def process_histories(rep, tier, seed):
     bad = None
     env = dict(__import__("os").environ, PYTHONPATH=str(__import__("pyvc.report", fromlist=["REPO"]).REPO / "src"))
     n = 0
-    for h in hists:
-        for ending in ("EXIT\n", ""):
-            text = "".join(alphabet[k] + "\n" for k in h) + ending
-            try:
-                p = subprocess.run([sys.executable, "-m", "stationeers_pytrapic.mod_daemon"], input=text.encode(), capture_output=True, timeout=120, env=env, cwd="/")
-            except subprocess.TimeoutExpired:
-                bad = (h, ending, "daemon did not exit within 120 s")
-                break
-            n += 1
-            out = p.stdout.decode("utf-8", "replace")
-            lines = out.split("\n")
-            want = sum(1 for k in h if alphabet[k].strip() != "")
-            ok = out.endswith("\n") or out == ""
-            body = lines[:-1] if ok else lines
-            problems = []
-            if len(body) != want:
-                problems.append(f"{len(body)} stdout lines for {want} non-empty requests")
-            for ln in body:
-                try:
-                    obj = json.loads(base64.b64decode(ln, validate=True).decode("utf-8"))
-                    if not isinstance(obj, dict):
-                        problems.append("a reply is not a JSON object")
-                except Exception as e:
-                    problems.append(f"a stdout line is not base64-encoded JSON ({type(e).__name__}): {ln[:60]!r}")
-            if p.returncode != 0:
-                problems.append(f"exit code {p.returncode}")
-            if problems:
-                bad = (h, ending, "; ".join(problems[:3]))
-                break
-        if bad:
-            break
+    # pairs first (a request after each kind of line), then single lines, then the random histories; 12 daemons at a time
+    order = hists[len(keys): 2 * len(keys)] + hists[: len(keys)] + hists[2 * len(keys):]
+    jobs = [(h, ending) for h in order for ending in ("EXIT\n", "")]
+
+    def run_one(job):
+        h, ending = job
         if time.time() - t0 > (50 if q else 600):
-            break
+            return None
+        text = "".join(alphabet[k] + "\n" for k in h) + ending
+        try:
+            p = subprocess.run([sys.executable, "-m", "stationeers_pytrapic.mod_daemon"], input=text.encode(), capture_output=True, timeout=120, env=env, cwd="/")
+        except subprocess.TimeoutExpired:
+            return (h, ending, "daemon did not exit within 120 s")
+        out = p.stdout.decode("utf-8", "replace")
+        lines = out.split("\n")
+        want = sum(1 for k in h if alphabet[k].strip() != "")
+        ok = out.endswith("\n") or out == ""
+        body = lines[:-1] if ok else lines
+        problems = []
+        if len(body) != want:
+            problems.append(f"{len(body)} stdout lines for {want} non-empty requests")
+        for ln in body:
+            try:
+                obj = json.loads(base64.b64decode(ln, validate=True).decode("utf-8"))
+                if not isinstance(obj, dict):
+                    problems.append("a reply is not a JSON object")
+            except Exception as e:
+                problems.append(f"a stdout line is not base64-encoded JSON ({type(e).__name__}): {ln[:60]!r}")
+        if p.returncode != 0:
+            problems.append(f"exit code {p.returncode}")
+        return (h, ending, "; ".join(problems[:3])) if problems else True
+
+    from concurrent.futures import ThreadPoolExecutor
+
+    with ThreadPoolExecutor(12) as tp:
+        for job, r in zip(jobs, tp.map(run_one, jobs)):
+            if r is None:
+                continue
+            n += 1
+            if r is not True and bad is None:
+                bad = r
     ob = Ob("mod_daemon.main#one_reply_line_per_request_in_order", HELD if not bad else VIOLATED, kind="bounded", backend="native", target="mod_daemon (real process)",
             bound=f"{n} runs of the real daemon process; histories of length 1-{4 if q else 6} over a {len(keys)}-letter request alphabet, with and without EXIT", time_s=time.time() - t0)
     if bad:
